@@ -13,57 +13,25 @@ import (
 	"verif/harness/lib"
 )
 
-// probes run a handful of fixed, minimal inputs that decide which of the recorded defects are
-// present in the tree under test, tell the Lean driver which variant of the model applies, and
-// report each present defect with its minimal replay.
+// sentinels: the minimal inputs of the defects that were found and repaired (b4577f2, 1b3416d,
+// 69981ea, edddfcf). The model is the current tree — there is no variant selection any more — so a
+// regression of a fix is reported here as a violation with the defect's own sig and minimal replay
+// (known/C18.json lists none: it FAILS the check), next to the mismatches of the families.
 func (h *harness) probes() {
+	if h.f.Replay != "" {
+		return // a replay reports only what the replayed input shows
+	}
 	h.runnerProbes()
-	over, skip := true, true
 	// (A) resume over a hole: range 0 unmigrated, range 1 migrated
 	{
 		c := chainSpec{Seed: 7, Counts: repeatInt(1, 20), Layout: strings.Repeat("o", 10) + strings.Repeat("n", 10)}
-		d, err := c.build()
-		if err != nil {
-			h.res.Fatalf("probe fixture (resume over a hole) does not build: %v", err)
-		} else if o := runBlockTx(d, btPlan{}, false); o.ret != "done" {
-			h.res.Fatalf("probe (resume over a hole): Migrate returned %s %s", o.ret, o.errText)
-		} else {
-			v := readBlockCurrent(o.final, c, 10)
-			over = !(sameView(v, c.expectedView(10)))
-		}
+		h.blockTxImage(c, "sentinel:resume-over-a-hole")
 	}
 	// (B) leading empty blocks below the aligned first block
 	{
 		cnt := append(repeatInt(0, 10), 1)
 		c := chainSpec{Seed: 7, Counts: cnt, Layout: strings.Repeat("o", 11)}
-		d, err := c.build()
-		if err != nil {
-			h.res.Fatalf("probe fixture (leading empty blocks) does not build: %v", err)
-		} else if o := runBlockTx(d, btPlan{}, false); o.ret != "done" {
-			h.res.Fatalf("probe (leading empty blocks): Migrate returned %s %s", o.ret, o.errText)
-		} else {
-			v := readBlockCurrent(o.final, c, 0)
-			skip = v.Err != "ok"
-		}
-	}
-	h.btOver, h.btSkip = over, skip
-	h.res.Hit(fmt.Sprintf("probe:blocktx-overwriteMigrated=%v", over))
-	h.res.Hit(fmt.Sprintf("probe:blocktx-skipUnstoredEmpty=%v", skip))
-	b2 := func(b bool) string {
-		if b {
-			return "1"
-		}
-		return "0"
-	}
-	if a := h.bt.ask("cfg " + b2(h.l9) + " " + b2(h.unkLast) + " " + b2(over) + " " + b2(skip)); a != "ok" {
-		h.res.Mismatch(lib.Mismatch{Sig: "cfg-rejected", Model: a})
-	}
-	// with the model variant fixed, run the probe histories for the record (violations + correspondence)
-	for _, hist := range h.probeHists {
-		if h.f.Replay != "" {
-			break // a replay reports only what the replayed input shows
-		}
-		h.runnerHistoryCase(hist, "probe")
+		h.blockTxImage(c, "sentinel:leading-empty-blocks")
 	}
 }
 
